@@ -54,6 +54,8 @@ def operand_catalogue(rng, dtype):
 
 
 def check_c03(tier, seed):
+    import operator as op
+
     rng = np.random.default_rng(seed)
     b = Bounded(
         "C03.bounded",
@@ -120,7 +122,6 @@ def check_c03(tier, seed):
                     compare(fn + "[tensor,pyscalar]", lambda: getattr(mg, fn)(mg.tensor(x), s), lambda: getattr(np, fn)(x, s), dict(fn=fn, operands=[describe(x), describe(s)]))
                     compare(fn + "[pyscalar,tensor]", lambda: getattr(mg, fn)(s, mg.tensor(x)), lambda: getattr(np, fn)(s, x), dict(fn=fn, operands=[describe(s), describe(x)]))
     # operators with python scalars (NEP 50 weak promotion)
-    import operator as op
 
     for name, o in (("+", op.add), ("-", op.sub), ("*", op.mul), ("/", op.truediv), ("**", op.pow)):
         for dt in DT:
@@ -128,6 +129,51 @@ def check_c03(tier, seed):
                 for s in [2, 2.0, True, 3, 1]:
                     compare(f"operator{name}", lambda: o(mg.tensor(x), s), lambda: o(x, s), dict(op=name, operands=[describe(x), describe(s)]))
                     compare(f"operator{name}[r]", lambda: o(s, mg.tensor(x)), lambda: o(s, x), dict(op="r" + name, operands=[describe(s), describe(x)]))
+    # non-differentiable families that MyGrad re-exports / dispatches to NumPy: rounding-modulo (constant tensors only) and comparisons
+    CONST_ONLY_BIN = ["floor_divide", "remainder", "mod", "fmod"]
+    CONST_ONLY_UN = ["rint", "sign", "floor", "ceil", "trunc"]
+    BOOL_BIN = ["greater", "greater_equal", "less", "less_equal", "equal", "not_equal", "logical_and", "logical_or", "logical_xor"]
+    BOOL_UN = ["isnan", "isfinite", "isinf", "signbit", "logical_not"]
+    for dt in DT:
+        for x in operand_catalogue(rng, dt)[:3]:
+            if np.dtype(dt).kind == "b":
+                continue
+            xc = lambda: mg.tensor(x, constant=True)  # noqa
+            for fn in CONST_ONLY_UN + BOOL_UN:
+                compare(fn, lambda: getattr(np, fn)(xc()), lambda: getattr(np, fn)(x), dict(fn=fn, operands=[describe(x)], spelling="np ufunc on constant tensor"))
+            for fn in CONST_ONLY_BIN + BOOL_BIN:
+                for s in [3, 0.7, 2.0, True, 0.1]:
+                    compare(fn + "[tensor,pyscalar]", lambda: getattr(np, fn)(xc(), s), lambda: getattr(np, fn)(x, s), dict(fn=fn, operands=[describe(x), describe(s)]))
+                    compare(fn + "[pyscalar,tensor]", lambda: getattr(np, fn)(s, xc()), lambda: getattr(np, fn)(s, x), dict(fn=fn, operands=[describe(s), describe(x)]))
+                y = operand_catalogue(rng, np.float64)[0] if np.ndim(x) == 2 else np.float64(0.7)
+                compare(fn + "[tensor,array]", lambda: getattr(np, fn)(xc(), y), lambda: getattr(np, fn)(x, y), dict(fn=fn, operands=[describe(x), describe(y)]))
+            for name, o in (("//", op.floordiv), ("%", op.mod), ("<", op.lt), ("<=", op.le), (">", op.gt), (">=", op.ge), ("==", op.eq), ("!=", op.ne)):
+                for s in [3, 0.7, 0.1, 2.0]:
+                    if name == "%":
+                        continue  # Tensor does not define __mod__ (NumPy's reflected dispatch covers ndarray % tensor only)
+                    compare(f"operator{name}", lambda: o(xc(), s), lambda: o(x, s), dict(op=name, operands=[describe(x), describe(s)]))
+                    compare(f"operator{name}[r]", lambda: o(s, xc()), lambda: o(s, x), dict(op="r" + name, operands=[describe(s), describe(x)]))
+    # values of comparisons against Python floats that are not representable in the tensor's dtype
+    for dt in (np.float16, np.float32):
+        xv = np.array([0.1, 0.7, 1.0, 0.3], dtype=dt)
+        for s in (0.1, 0.7, 0.3):
+            for name, o in (("==", op.eq), ("<", op.lt), (">=", op.ge), ("!=", op.ne)):
+                compare(f"operator{name}[value]", lambda: o(mg.tensor(xv), s), lambda: o(xv, s), dict(op=name, operands=[describe(xv), describe(s)], note="scalar not representable in dtype"))
+    # functions that treat Python scalars like arrays (np.asarray per element) vs. ufunc-like functions
+    f32 = rng.uniform(0.6, 0.9, size=(3,)).astype(np.float32)
+    i8 = np.arange(3, dtype=np.int8)
+    for xa in (f32, i8, f32.astype(np.float16)):
+        seqs = [
+            ("stack[scalar-elements]", lambda xp, a: xp.stack([a[0], 2.0])), ("stack[list-element]", lambda xp, a: xp.stack([a, [2.0, 2.0, 2.0]])), ("concatenate[list-element]", lambda xp, a: xp.concatenate([a, [2.0]])),
+            ("concatenate[int-list]", lambda xp, a: xp.concatenate([a, [2]])), ("einsum[scalar-operand]", lambda xp, a: xp.einsum("i,->i", a, 2.0)), ("einsum[int-scalar]", lambda xp, a: xp.einsum("i,->i", a, 2)),
+            ("where[scalar-branch]", lambda xp, a: xp.where(np.array([True, False, True]), a, 2.0)), ("where[int-branch]", lambda xp, a: xp.where(np.array([True, False, True]), 1, a)), ("clip[scalars]", lambda xp, a: xp.clip(a, 0, 1.0)),
+            ("maximum[scalar]", lambda xp, a: xp.maximum(a, 0.5)), ("matmul[list]", lambda xp, a: xp.matmul(a, [1.0, 2.0, 3.0])), ("multiply[list]", lambda xp, a: xp.multiply(a, [1.0, 2.0, 3.0])),
+            ("add[np-scalar]", lambda xp, a: xp.add(a, np.float64(2.0))), ("add[0d-array]", lambda xp, a: xp.add(a, np.array(2.0))), ("power[np-int-scalar]", lambda xp, a: xp.power(a, np.int64(3))),
+        ]
+        for nm, f in seqs:
+            compare(nm, lambda: f(mg, mg.tensor(xa)), lambda: f(np, xa), dict(fn=nm, operands=[describe(xa)]))
+        compare("add_sequence[scalar]", lambda: mg.add_sequence(mg.tensor(xa), 2.0, 1), lambda: xa + 2.0 + 1, dict(fn="add_sequence", operands=[describe(xa), "py:float:2.0", "py:int:1"]))
+        compare("multiply_sequence[scalar]", lambda: mg.multiply_sequence(mg.tensor(xa), 2.0, 3), lambda: xa * 2.0 * 3, dict(fn="multiply_sequence", operands=[describe(xa), "py:float:2.0", "py:int:3"]))
     # reductions
     for fn in REDUCE:
         for dt in (np.float16, np.float32, np.float64, np.int8, np.int64, np.bool_):
@@ -273,6 +319,34 @@ def check_c10(tier, seed):
             if x.constant is not tconst or view.constant is not tconst:
                 b.fail("C10.bounded.inplace_flag", desc, f"target flag {x.constant} / view flag {view.constant}, expected {tconst}")
             b.case(desc)
+    # views whose flag was forced with constant= keep it across any number of later in-place updates of the family
+    for base_const, forced in itertools.product([False, True], [True, False]):
+        if base_const and forced is False:
+            mk = lambda x: mg.reshape(x, (2, 2), constant=False)  # noqa
+        else:
+            mk = None
+        makers = [("reshape", lambda x, c: mg.reshape(x, (2, 2), constant=c)), ("method-reshape", lambda x, c: x.reshape(2, 2, constant=c)), ("transpose", lambda x, c: mg.transpose(x.reshape(2, 2), constant=c)),
+                  ("getitem-via-op", lambda x, c: mg.squeeze(x[None], constant=c))]
+        for vn, vm in makers:
+            for nupd in (1, 2, 3):
+                x = mg.tensor(rng.uniform(1, 2, size=4), constant=base_const)
+                try:
+                    v = vm(x, forced)
+                except Exception:
+                    continue
+                if v.base is None:
+                    continue
+                desc = dict(forced_view=vn, base_const=base_const, forced=forced, inplace_updates=nupd)
+                try:
+                    for i in range(nupd):
+                        x[i] = float(i)
+                except Exception as e:
+                    b.error(f"{desc}: {type(e).__name__}: {e}")
+                    continue
+                b.count("forced flag survives replays")
+                if v.constant is not forced or x.constant is not base_const:
+                    b.fail("C10.bounded.forced_flag_lost", desc, f"view.constant={v.constant} (forced {forced}), base.constant={x.constant} (was {base_const})")
+                b.case(desc)
     return b
 
 
